@@ -491,6 +491,12 @@ def const_guards(repo: Repo, chk: Check) -> None:
             ok = any("GetGlobalOp" in t and "name_" in t and t.startswith("all((not") for t in first.fact_texts)
             chk.result(ok, "C12.const-guards", f"{g2.key}:{extra}", first.where(), "a global is replaced only if no other get_global refers to its symbol",
                        "the global is replaced/erased although another get_global may refer to the same symbol (dangling reference)", first.fact_texts)
+        if cname == "ApplyLayoutCastMemrefGlobal":
+            # transform_constant reads the initial value as row-major data; the tensor attribute carries no layout, the global's type does
+            ok = bool(has_fact(first, ["isinstance($g.type.layout, builtin.NoneAttr)", "isinstance($g.type.layout, NoneAttr)"]))
+            chk.result(ok, "C12.const-guards", f"{g2.key}:global-layout-none", first.where(), "only a global whose type has no layout is re-laid-out at compile time",
+                       "a global is re-laid-out whatever layout its type already has: the data of a global transformed before (a second layout cast of the same get_global) is "
+                       "permuted again as if it were row-major", first.fact_texts)
         if cname == "ApplyLayoutCastSubviewGlobal":
             ok = bool(has_fact(first, ["$s.source.uses.get_length() == 1", "len($s.source.uses) == 1"]))
             chk.result(ok, "C12.const-guards", f"{g2.key}:single-subview", first.where(), "the get_global feeding the subview has exactly one use (this subview)",
